@@ -539,17 +539,20 @@ Definition frag_from_request (seq : Z) (r : reqpkt) (offset : Z) (value : bytes)
   | Err e => Err e
   end.
 
-(* ReadModifyWriteRequestPacket.__init__ *)
+(* ReadModifyWriteRequestPacket.__init__: the path is computed first; a type without a width
+   (DataTypes.get(...) is None, or size 0) is a RequestError *)
 Definition new_rmw (seq : Z) (tag : text) (info : tag_info) (id : Z) (use_inst : bool) : res reqpkt :=
-  match datatypes_row (ti_type_name info) with
-  | None => Err (Foreign AttributeError)                      (* DataTypes.get(...) is None: .size *)
-  | Some r =>
-      match path_of tag info use_inst with
-      | Err e => Err e
-      | Ok path =>
-          Ok (mkPkt KRmw seq tag 0 info id use_inst [] 0 [] path 0 18446744073709551615 (row_size r)
-                    (PyStr.text_eqb (ti_type_name info) n_DWORD) []
-                    false [] [] [] (match path with None => true | Some _ => false end))
+  match path_of tag info use_inst with
+  | Err e => Err e
+  | Ok path =>
+      match datatypes_row (ti_type_name info) with
+      | None => Err RequestError
+      | Some r =>
+          if row_size r =? 0 then Err RequestError
+          else
+            Ok (mkPkt KRmw seq tag 0 info id use_inst [] 0 [] path 0 18446744073709551615 (row_size r)
+                      (PyStr.text_eqb (ti_type_name info) n_DWORD) []
+                      false [] [] [] (match path with None => true | Some _ => false end))
       end
   end.
 
@@ -559,10 +562,17 @@ Definition set_bit_masks (dword : bool) (o a : Z) (bit : Z) (value : bool) : Z *
   if value then (Z.lor o (Z.shiftl 1 bit), Z.lor a (Z.shiftl 1 bit))
   else (Z.land o (Z.lnot (Z.shiftl 1 bit)), Z.land a (Z.lnot (Z.shiftl 1 bit))).
 
+(* the bit a call names, and whether it lies inside the mask *)
+Definition named_bit (dword : bool) (bit : Z) : Z := if dword then bit mod 32 else bit.
+Definition bit_in_mask (dword : bool) (mask_size bit : Z) : bool :=
+  (0 <=? named_bit dword bit) && (named_bit dword bit <? mask_size * 8).
+(* a one-element slice (`bools[i]{1}`) written with a one-item list / tuple: the item *)
+Definition unwrap_one (v : pv) : pv := match v with PList [x] => x | _ => v end.
+
 Definition set_bit (p : reqpkt) (bit : Z) (value : pv) (id : Z) : res reqpkt :=
-  if bit <? 0 then Err (Foreign ValueError)                    (* 1 << negative *)
+  if negb (bit_in_mask (k_dword p) (k_mask_size p) bit) then Err RequestError      (* Invalid bit number *)
   else
-    let '(o, a) := set_bit_masks (k_dword p) (k_or p) (k_and p) bit (truthy value) in
+    let '(o, a) := set_bit_masks (k_dword p) (k_or p) (k_and p) bit (truthy (unwrap_one value)) in
     Ok (mkPkt (k_kind p) (k_seq p) (k_tag p) (k_elements p) (k_info p) (k_id p) (k_use_inst p) (k_value p) (k_offset p)
               (k_packed_type p) (k_path p) o a (k_mask_size p) (k_dword p) (k_ids p ++ [id])
               (k_msg_setup p) (k_msg p) (k_added p) (k_message p) (k_failed p)).
@@ -577,25 +587,38 @@ Record wcfg := mkCfg { c_conn : Z; c_micro800 : bool; c_use_inst : bool }.
 Inductive built :=
   | BErr                                   (* parsing failed: no packet *)
   | BBit                                   (* a bit write: joins / creates the RMW packet of its plc_tag *)
-  | BEncErr                                (* encode_value raised (and was caught): tag_data["error"], no packet *)
+  | BEncErr                                (* encode_value / set_bit on an existing packet raised (caught): "error" set, no packet, no count drawn *)
+  | BBuildErr                              (* the packet constructor ran (one count drawn) and construction / set_bit /
+                                              build_message raised (caught): "error" set, no packet *)
   | BWrite (p : reqpkt).                   (* its WriteTagRequestPacket, build_message() done *)
 
 (* what the loop body of _write_build_multi_requests / _write_build_single_request does for one
-   request, up to the decision the planner takes on sizes.  [seq] = the count its packet draws.
-   multi = false: the single path, whose `except RequestError` also covers the packet constructor. *)
-Definition build_one (cfg : wcfg) (multi : bool) (seq : Z) (q : wparsed) : res built :=
+   request, up to the decision the planner takes on sizes.  [seq] = the count its packet draws;
+   [joins] = (multi path) its plc_tag already has a Read-Modify-Write packet.  Every exception of
+   encode_value, of the packet constructors, of set_bit and of build_message is caught
+   (`except Exception`) and fails this request alone. *)
+Definition build_one (cfg : wcfg) (joins : bool) (seq : Z) (q : wparsed) : res built :=
   if q_error q then Ok BErr
-  else if is_bit_write q then Ok BBit
+  else if is_bit_write q then
+    let dword := PyStr.text_eqb (ti_type_name (q_info q)) n_DWORD in
+    let width := match datatypes_row (ti_type_name (q_info q)) with Some r => row_size r | None => 0 end in
+    if joins then
+      (* request.set_bit on the packet its tag already has *)
+      Ok (if bit_in_mask dword width (opt_or0 (q_bit q)) then BBit else BEncErr)
+    else
+      match new_rmw seq (q_plc_tag q) (q_info q) 0 (c_use_inst cfg) with
+      | Err _ => Ok BBuildErr
+      | Ok p => Ok (if bit_in_mask (k_dword p) (k_mask_size p) (opt_or0 (q_bit q)) then BBit else BBuildErr)
+      end
   else
     match encode_value q with
-    | Err e => if multi then Ok BEncErr                               (* except Exception *)
-               else match e with RequestError => Ok BEncErr | _ => Err e end
+    | Err _ => Ok BEncErr
     | Ok (wv, elements) =>
         match new_write_packet KWrite seq (q_plc_tag q) elements (q_info q) (q_id q) (c_use_inst cfg) 0 wv with
-        | Err e => if multi then Err e else match e with RequestError => Ok BEncErr | _ => Err e end
+        | Err _ => Ok BBuildErr
         | Ok p => match build_message p with
                   | Ok p' => Ok (BWrite p')
-                  | Err e => Err e
+                  | Err _ => Ok BBuildErr
                   end
         end
     end.
@@ -608,7 +631,7 @@ Definition abstract_of (q : wparsed) (b : built) : wreq :=
   match b with
   | BErr => {| w_id := q_id q; w_err := true; w_bit := false; w_tag := []; w_enc_err := false; w_msg := 0; w_val := 0 |}
   | BBit => {| w_id := q_id q; w_err := false; w_bit := true; w_tag := q_plc_tag q; w_enc_err := false; w_msg := 0; w_val := 0 |}
-  | BEncErr => {| w_id := q_id q; w_err := false; w_bit := false; w_tag := []; w_enc_err := true; w_msg := 0; w_val := 0 |}
+  | BEncErr | BBuildErr => {| w_id := q_id q; w_err := false; w_bit := false; w_tag := []; w_enc_err := true; w_msg := 0; w_val := 0 |}
   | BWrite p => {| w_id := q_id q; w_err := false; w_bit := false; w_tag := []; w_enc_err := false;
                    w_msg := zlen (k_message p); w_val := zlen (k_value p) |}
   end.
@@ -623,11 +646,12 @@ Fixpoint build_all (cfg : wcfg) (multi : bool) (v : Z) (reqs : list wparsed) (dr
   match reqs with
   | [] => Ok ([], drawn)
   | q :: rest =>
-      match build_one cfg multi (seq_at v drawn) q with
+      match build_one cfg (multi && tag_seen (q_plc_tag q) seen) (seq_at v drawn) q with
       | Err e => Err e
       | Ok b =>
           let d := match b with
                    | BErr | BEncErr => O
+                   | BBuildErr => 1%nat
                    | BBit => if multi && tag_seen (q_plc_tag q) seen then O else 1%nat
                    | BWrite p =>
                        (* from_request draws a second count when the planner fragments it *)
@@ -635,8 +659,6 @@ Fixpoint build_all (cfg : wcfg) (multi : bool) (v : Z) (reqs : list wparsed) (dr
                                    else zlen (k_value p) + zlen (k_message p) >? c_conn cfg in
                        if frag then 2%nat else 1%nat
                    end in
-          (* an encode error after the packet constructor ran in the single path draws too, but that
-             cannot happen: the constructor runs after encode_value *)
           let seen' := match b with BBit => if tag_seen (q_plc_tag q) seen then seen else q_plc_tag q :: seen | _ => seen end in
           match build_all cfg multi v rest (drawn + d) seen' with
           | Ok (l, n) => Ok ((q, b, drawn) :: l, n)
@@ -823,7 +845,7 @@ Definition write_plan (cfg : wcfg) (v : Z) (reqs : list wparsed) : res (list pac
       (* the RMW creation in the single path happens in request order too: same draw bookkeeping *)
       match materialise cfg v bl plan drawn (drawn + count_multi plan)%nat with
       | Ok out => Ok (plan, out, map (fun x => (q_id (fst (fst x)),
-                                                match snd (fst x) with BErr | BEncErr => true | _ => false end)) bl)
+                                                match snd (fst x) with BErr | BEncErr | BBuildErr => true | _ => false end)) bl)
       | Err e => Err e
       end
   end.
